@@ -115,6 +115,8 @@ struct lpmon {
 	uint64_t sig;
 	int init_done, fini_done;
 	unsigned undone;
+	struct { uint32_t id, seq; } *early; /* remote anti-messages parked before their event arrived */
+	unsigned n_early, cap_early;
 };
 static struct lpmon lpm[VH_MAXLP];
 
@@ -475,9 +477,19 @@ void rs_verif_hook(unsigned point, const void *p, uint64_t a, uint64_t b)
 			return;
 		}
 		/* ---------- forward execution ---------- */
-		case VH_FWD_BEGIN:
+		case VH_FWD_BEGIN: {
 			t->in_forward = 1;
+			struct lp_msg *m = (struct lp_msg *)p;
+			struct lpmon *lm = LM((struct lp_ctx *)(uintptr_t)a);
+			if(lm->n_early && (atomic_load_explicit(&m->verif_st, memory_order_relaxed) & ST_REMOTE_COPY))
+				for(unsigned i = 0; i < lm->n_early; ++i)
+					if(lm->early[i].id == (m->raw_flags & ~3U) && lm->early[i].seq == m->m_seq) {
+						vh_violation("C06", "cancelled-remote-event-delivered", "LP %llu executes remote event id %llu {t=%a,type=%u} although its anti-message arrived before it and was parked", (unsigned long long)m->dest, (unsigned long long)m->verif_id, m->dest_t, m->m_type);
+						lm->early[i] = lm->early[--lm->n_early];
+						break;
+					}
 			return;
+		}
 		case VH_SEND: {
 			struct lp_msg *m = (struct lp_msg *)p;
 			if(t->in_silent)
@@ -549,8 +561,25 @@ void rs_verif_hook(unsigned point, const void *p, uint64_t a, uint64_t b)
 					if(b)
 						atomic_fetch_or_explicit(&((struct lp_msg *)(uintptr_t)b)->verif_st, ST_RELEASE_OK, memory_order_relaxed);
 					break;
-				case VB_ANTI_REMOTE_EARLY: CNT(VC_ANTI_REMOTE_EARLY); break;
-				case VB_EARLY_MATCH:
+				case VB_ANTI_REMOTE_EARLY: {
+					CNT(VC_ANTI_REMOTE_EARLY);
+					struct lpmon *lm = LM(&lps[m->dest]);
+					if(lm->n_early == lm->cap_early) {
+						lm->cap_early = lm->cap_early ? lm->cap_early * 2 : 16;
+						lm->early = realloc(lm->early, lm->cap_early * sizeof(*lm->early));
+					}
+					lm->early[lm->n_early].id = m->raw_flags & ~3U;
+					lm->early[lm->n_early++].seq = m->m_seq;
+					break;
+				}
+				case VB_EARLY_MATCH: {
+					struct lpmon *lm = LM(&lps[m->dest]);
+					for(unsigned i = 0; i < lm->n_early; ++i)
+						if(lm->early[i].id == (m->raw_flags & ~3U) && lm->early[i].seq == m->m_seq) {
+							lm->early[i] = lm->early[--lm->n_early];
+							break;
+						}
+				}
 					CNT(VC_EARLY_MATCH);
 					atomic_fetch_or_explicit(&m->verif_st, ST_RELEASE_OK, memory_order_relaxed);
 					if(b)
@@ -1040,6 +1069,7 @@ void vh_reset(void)
 	for(unsigned i = 0; i < VH_MAXLP; ++i) {
 		free(lpm[i].h);
 		free(lpm[i].ck);
+		free(lpm[i].early);
 	}
 	memset(lpm, 0, sizeof(lpm));
 	for(unsigned i = 0; i < VH_MAXTHR; ++i) {
